@@ -695,3 +695,12 @@ C13 = Prop("C13", "opt", ["NitroVerif.Props.C13"], gen_c13,
                       "C++ runtime matters observed by the harness under ASan.",
            technique="Lean 4 proof (invariant by induction over declaration histories) + differential correspondence under ASan",
            **COMMON)
+
+# round 10 additions to the family descriptions
+for _p in (C01, C02, C03, C04, C11, C12, C14):
+    _p.rule += (" A ninth declaration template has digits as letters and toggle letters whose bundles read like numbers "
+                "(-1, -111, -9 v, -inf, -nan, -1e1; -5, -1.5, -0x1f undeclared). Every history keeps a copy of each step's result and re-reads its "
+                "positionals (list, get(0), get(-1), [-1]) after the last step: a result is what its parse returned, whatever is done with the parser afterwards.")
+C04.rule += (" Tokens made of characters that mean something to formatting / pattern / shell machinery ({}, {0}, %s, %n, backslash, $(x), .*, [a, quotes, "
+             "control characters) in every role: unknown long name, unknown letter, inside a bundle, =value, separate value, positional, behind --.")
+C13.rule += " The first named group is called like the heading of the default group ('arguments'): a different group."
